@@ -48,4 +48,5 @@ float halve(float x);
 int64_t big(int64_t v);
 #include <cstddef>
 int fillTo(int v, size_t n = 3);
+int get(int k);
 #endif
